@@ -29,16 +29,83 @@ fn main() {
         let v: serde_json::Value = serde_json::from_str(&line).expect("child: bad json");
         let id = v["id"].as_u64().unwrap_or(0);
         let limit = v["limit"].as_u64().unwrap_or(u64::MAX);
+        // how the iterator is consumed: 0 = for loop, 1 = size_hint() before every next(),
+        // 2 = collect() (a size hint and a fold), 3 = nth() with steps 0..3
+        let style = v["style"].as_u64().unwrap_or(0);
+        // Some(k): only the first k showdowns are taken (configurations far too large to drain)
+        let take = v["take"].as_u64();
         let cfg: Config = serde_json::from_value(v["cfg"].clone()).expect("child: bad cfg");
         let h = std::thread::Builder::new()
             .stack_size(2 << 20)
             .spawn(move || -> Result<u64, u64> {
                 let mut n = 0u64;
-                for s in cfg.evaluator() {
-                    std::hint::black_box(&s);
-                    n += 1;
-                    if n > limit {
-                        return Err(n);
+                if let Some(k) = take {
+                    let mut it = cfg.evaluator().into_iter();
+                    std::hint::black_box(it.size_hint());
+                    let head: Vec<espada::evaluator::Showdown> = it.by_ref().take(k.min(2) as usize).collect();
+                    n += head.len() as u64;
+                    while n < k {
+                        std::hint::black_box(it.size_hint());
+                        match it.next() {
+                            Some(s) => {
+                                std::hint::black_box(&s);
+                                n += 1;
+                            }
+                            None => break,
+                        }
+                    }
+                    std::hint::black_box(it.size_hint());
+                    return Ok(n);
+                }
+                match style {
+                    1 => {
+                        let mut it = cfg.evaluator().into_iter();
+                        loop {
+                            std::hint::black_box(it.size_hint());
+                            match it.next() {
+                                Some(s) => {
+                                    std::hint::black_box(&s);
+                                    n += 1;
+                                    if n > limit {
+                                        return Err(n);
+                                    }
+                                }
+                                None => break,
+                            }
+                        }
+                        std::hint::black_box(it.size_hint());
+                    }
+                    2 if limit <= 150_000 => {
+                        let v: Vec<espada::evaluator::Showdown> = cfg.evaluator().into_iter().take(limit as usize + 1).collect();
+                        n = v.len() as u64;
+                        if n > limit {
+                            return Err(n);
+                        }
+                    }
+                    3 => {
+                        let mut it = cfg.evaluator().into_iter();
+                        loop {
+                            let k = n % 4;
+                            match it.nth(k as usize) {
+                                Some(s) => {
+                                    std::hint::black_box(&s);
+                                    n += 1;
+                                    if n > limit {
+                                        return Err(n);
+                                    }
+                                }
+                                None => break,
+                            }
+                        }
+                    }
+                    _ => {
+                        for s in cfg.evaluator() {
+                            std::hint::black_box(&s);
+                            n += 1;
+                            if n > limit {
+                                return Err(n);
+                            }
+                        }
                     }
                 }
                 Ok(n)
